@@ -50,3 +50,6 @@ Fixpoint fbloop (fuel : nat) (verdict : nat -> nat -> bool) (cur : list slot) (c
 
 Definition initial_slots (n : nat) : list slot := map (fun i => (i, i + n)%nat) (seq 0 n).
 Definition fbstep (fuel n : nat) (verdict : nat -> nat -> bool) := fbloop fuel verdict (initial_slots n) (2 * n).
+
+(* mass scaling of one coordinate: (m_min / m)^p, numpy's power on positive reals *)
+Definition scale_of (mmin m p : R) : R := Rpower (mmin / m) p.
